@@ -71,6 +71,11 @@ func loadProgram(repo, module string, patterns []string) (*ssa.Program, []*packa
 
 func loadSpecs(db *SpecDB, pkgs []*packages.Package, repo, verif string) []string {
 	var used []string
+	// package-independent mathematical spec functions (no contract about code)
+	if pre := filepath.Join(verif, "contracts", "prelude.spec"); fileExists(pre) {
+		must(db.loadFile(pre, ""))
+		used = append(used, pre)
+	}
 	for _, p := range pkgs {
 		if len(p.GoFiles) == 0 {
 			continue
@@ -458,6 +463,11 @@ func summarize(prop, tier string, seed int, pc *PropCfg, reps []*FuncReport, x *
 				}
 			default:
 				path := writeReplay(replayDir, prop, o, r, repo, verif)
+				if strings.HasSuffix(path, "#replayed") {
+					violations = append(violations, o.Name)
+					fmt.Printf("VIOLATION property=%s replay=%s\n", prop, strings.TrimSuffix(path, "#replayed"))
+					continue
+				}
 				if deg || (baseline != nil && !baseline[o.Name]) {
 					undecided = append(undecided, o.Name+" ("+o.Status+")")
 					fmt.Printf("UNDECIDED obligation=%s reason=%s\n", o.Name, o.Status)
@@ -608,7 +618,7 @@ func writeReplay(dir, prop string, o *Obl, r *FuncReport, repo, verif string) st
 		fmt.Fprintf(&b, "function outside the verified subset: %s\n", strings.Join(r.Degraded, "; "))
 	}
 	replayed := false
-	if o.Status == "sat" {
+	if o.Status == "sat" || o.LiteSat {
 		out, ok := tryReplay(prop, o, r, repo, verif)
 		if out != "" {
 			fmt.Fprintf(&b, "\n--- replay on the real code ---\n%s\n", out)
@@ -774,4 +784,9 @@ func runBounded(pc *PropCfg, prop, tier, repo, verif string, skip bool) []map[st
 		out = append(out, res)
 	}
 	return out
+}
+
+func fileExists(p string) bool {
+	_, err := os.Stat(p)
+	return err == nil
 }
